@@ -410,6 +410,15 @@ def build_driver(name, model_ml, driver_ml, extra_ml=()):
     ex = os.path.join(COQ, "Extract")
     out_dir = os.path.join(VERIF, ".build")
     os.makedirs(out_dir, exist_ok=True)
+    # the extracted .ml is a by-product of compiling Extract/<X>.v: (re)build it when it is missing or older than its source
+    vfile = {"cal_model.ml": "ExtractCal", "graph_model.ml": "ExtractGraph"}.get(model_ml)
+    if vfile:
+        vo = os.path.join(ex, vfile + ".vo")
+        if not os.path.exists(os.path.join(ex, model_ml)) and os.path.exists(vo):
+            os.remove(vo)
+        ok, log = coq_make(["Extract/%s.vo" % vfile])
+        if not ok or not os.path.exists(os.path.join(ex, model_ml)):
+            raise RuntimeError("extraction of %s failed:\n%s" % (model_ml, log[-2000:]))
     parts = [os.path.join(ex, model_ml)]
     if "type positive" in open(parts[0]).read():
         parts.append(os.path.join(ex, "zio.ml"))
